@@ -133,9 +133,12 @@ def simp(e):
 
 def add(a, b):
     if not is_sym(a) and not is_sym(b):
-        if isinstance(a, (list, tuple, str)):
+        try:
             return a + b
-        return a + b
+        except TypeError as e:
+            # the real code would raise here too; for the verifier this is
+            # a state outside the modelled subset, not a crash
+            raise VCError('unsupported operands for +: %s' % e)
     if isinstance(a, (list, tuple)) or isinstance(b, (list, tuple)):
         raise VCError('sequence + symbolic')
     if is_conc_num(a) and a == 0 and not isinstance(a, Fraction):
